@@ -6,12 +6,14 @@ package swagen
 
 //@ func GenerateSpec props C08,C11,C14 havocs
 //@ requires config != nil && models != nil
+//@ requires swagtool.emittable(defs) && swagtool.uniqueSchemes(config.SecuritySchemes)
 //@ mayemit validatedSpec
 //@ ensures gate: implies(result1 == nil, evcount(validatedSpec) > old(evcount(validatedSpec)) && evlast(validatedSpec, 0))
 //@ ensures v30first: implies(result1 == nil && config.OpenAPI == "3.1.0", evcount(validatedSpec) == old(evcount(validatedSpec))+2)
 
 //@ func GenerateAndOutputSpec props C08,C20,C10,C14 havocs
 //@ requires config != nil && models != nil
+//@ requires swagtool.emittable(defs) && swagtool.uniqueSchemes(config.SecuritySchemes)
 //@ mayemit validatedSpec, wroteFile
 //@ ensures once: evcount(wroteFile) <= old(evcount(wroteFile))+1
 //@ ensures gate: implies(evcount(wroteFile) > old(evcount(wroteFile)), evcount(validatedSpec) > old(evcount(validatedSpec)) && evlast(validatedSpec, 0) && evlast(wroteFile, 1) == 420)
